@@ -46,8 +46,51 @@ def witness_trace(r):  # kept for replaying a TLC counterexample by hand
     return {'init': init, 'steps': steps}
 
 
+def consensus_slice(ctx):
+    """Proposer selection as the replicas use it: simulated behaviours of Tendermint.tla with round changes, several
+    heights, restarts and a validator-set change are replayed on real pbft.ConsensusState nodes; after every action each
+    node's proposer for its (height, round) is compared with the table computed from the validator-set history alone
+    (types.ValidatorSet, the object the ValSet.tla replay above binds to the specification)."""
+    from . import tm_common as tm
+    engine.build_go(ctx, ['csim'])
+    quick = ctx.tier == 'quick'
+    n, d = (12, 110) if quick else (150, 150)
+    cfgs = [tm.Cfg('c16-n4-rounds', [1, 1, 1, 1], [1], max_round=3, max_height=3, nbyz=1, budget=6, own_first=False,
+                   useful_only=True),
+            tm.Cfg('c16-n3p112-crash', [1, 1, 2], [2], max_round=2, max_height=2, nbyz=1, budget=4, crashes=2,
+                   crash_set=[1, 3], own_first=False, useful_only=True),
+            tm.Cfg('c16-n4-power-update', [1, 1, 1, 1], [4], max_round=2, max_height=2, nbyz=1, budget=4, own_first=False,
+                   useful_only=True, sync=True, next_power={2: [2, 1, 1, 1]})]
+    traces = []
+    for cfg in cfgs:
+        r, ts = tm.simulate(ctx, cfg, n, d, ctx.seed, timeout=1800)
+        ctx.add_tlc('Tendermint/' + cfg.name, r, exhaustive=False)
+        traces += ts
+    for k, t in enumerate(traces):
+        t['cfg'] = dict(t['cfg'], Variant=k)
+    rep = engine.run_driver(ctx, 'csim', traces, timeout=3600)
+    # only a proposer disagreement is a verdict about this property; other divergences belong to C01/C04/C07/C12
+    other = [f for f in (rep.get('failures') or []) if 'proposer' not in (f.get('key') or '')]
+    rep['failures'] = [f for f in (rep.get('failures') or []) if 'proposer' in (f.get('key') or '')]
+    engine.collect(ctx, rep, traces, 'csim')
+    rounds = sum(1 for t in traces if any(nd.get('r', 0) >= 1 for s in t['steps']
+                                          for nd in (s['post']['node'] if isinstance(s['post']['node'], list) else s['post']['node'].values())))
+    ctx.cov['consensus_slice'] = {'behaviours': rep['traces'], 'steps': rep['steps'], 'reaching_round_ge_1': rounds,
+                                  'other_divergences_ignored': len(other)}
+    ctx.log('consensus slice: %d behaviours (%d reach round >= 1) replayed on real nodes, proposer compared after every action'
+            % (rep['traces'], rounds))
+
+
 def run(ctx, replay=None):
     engine.build_go(ctx, ['valset'])
+    if replay is not None and replay.get('engine') == 'csim':
+        engine.build_go(ctx, ['csim'])
+        rep = engine.run_driver(ctx, 'csim', [replay['trace']], timeout=900)
+        rep['failures'] = [f for f in (rep.get('failures') or []) if 'proposer' in (f.get('key') or '')]
+        engine.collect(ctx, rep, [replay['trace']], 'csim')
+        ctx.cov['traces_validated_against_impl'] = 1
+        ctx.cov['states'] = ctx.cov['transitions'] = max(1, len(replay['trace']['steps']))
+        return
     if replay is not None:
         rep = engine.run_driver(ctx, 'valset', [replay['trace']])
         engine.collect(ctx, rep, [replay['trace']], 'valset')
@@ -131,6 +174,7 @@ def run(ctx, replay=None):
     ctx.cov['impl_checks'] = rep['checks']
     ctx.cov['driver_counters'] = rep.get('counters', {})
     ctx.cov['exhaustive'] = True
+    consensus_slice(ctx)
     for t in all_traces[:2]:
         ctx.sample({'id': t['id'], 'cfg': t['cfg'], 'init': t['init']['sets'][0]['pw'],
                     'actions': ['%s%s' % (s['a'], s['args']) for s in t['steps'][:12]]})
